@@ -849,7 +849,7 @@ int main(int argc, char** argv)
   {
     std::string const c = canon_notifier(s);
     g_events.push_back(c);
-    if (c == "n:alloc" && g_alloc_notice_throws)
+    if (c.rfind("n:alloc", 0) == 0 && g_alloc_notice_throws)
     {
       g_alloc_notice_throws = false;
       throw std::runtime_error("notifier failure");
